@@ -218,7 +218,16 @@ func ParseFunction(parameterList, body string) (*ast.FunctionLiteral, error) {
 		return nil, err
 	}
 
-	return program.Body[0].(*ast.ExpressionStatement).Expression.(*ast.FunctionLiteral), nil
+	// The text must be exactly one function: a parameter list or body that closes the
+	// function early ("})(function(){") parses, but not as what was asked for.
+	if len(program.Body) == 1 {
+		if statement, ok := program.Body[0].(*ast.ExpressionStatement); ok {
+			if function, ok := statement.Expression.(*ast.FunctionLiteral); ok && int(function.Idx1()) == len(src) {
+				return function, nil
+			}
+		}
+	}
+	return nil, fmt.Errorf("Unexpected token in function parameter list or body")
 }
 
 // Scan reads a single token from the source at the current offset, increments the offset and
